@@ -273,3 +273,87 @@ M('on_miss_not_cached_when_none', 'C02', C,
 M('copy_reversed', 'C02', C,
   """            values = self._get_flattened_ll()[1:]""",
   """            values = self._get_flattened_ll()[:0:-1]""")
+
+SU = 'boltons/setutils.py'
+# ---------------------------------------------------------------- C11
+M('real_index_le', 'C11', SU,
+  """            if real_index < d_start:
+                break
+            real_index += d_stop - d_start""",
+  """            if real_index <= d_start:
+                break
+            real_index += d_stop - d_start""")
+M('apparent_index_skips_last', 'C11', SU,
+  """        for d_start, d_stop in self.dead_indices:
+            if index < d_start:
+                break
+            apparent_index -= d_stop - d_start""",
+  """        for d_start, d_stop in self.dead_indices[:5]:
+            if index < d_start:
+                break
+            apparent_index -= d_stop - d_start""")
+M('compact_no_index_rewrite', 'C11', SU,
+  """        for i, item in enumerate(self):
+            items[i] = item
+            index_map[item] = i
+        del items[-dead_index_count:]""",
+  """        for i, item in enumerate(self):
+            items[i] = item
+            if i % 7:
+                index_map[item] = i
+        del items[-dead_index_count:]""")
+M('pop_index_no_dead', 'C11', SU,
+  """            del item_index_map[ret]
+            self._add_dead(real_index)
+        self._cull()
+        return ret""",
+  """            del item_index_map[ret]
+            if real_index > 2:
+                self._add_dead(real_index)
+        self._cull()
+        return ret""")
+M('reverse_keeps_dead', 'C11', SU,
+  """        for i, item in enumerate(self.item_list):
+            self.item_index_map[item] = i
+        del self.dead_indices[:]
+
+    def sort(self, **kwargs):""",
+  """        for i, item in enumerate(self.item_list):
+            self.item_index_map[item] = i
+
+    def sort(self, **kwargs):""")
+M('union_operand_first', 'C11', SU,
+  """        return self.from_iterable(chain(self, *others))""",
+  """        return self.from_iterable(chain(*(others + (self,)))) if len(others) > 1 else self.from_iterable(chain(self, *others))""")
+M('sort_early_return', 'C11', SU,
+  """        if sorted_list == self.item_list:
+            return""",
+  """        if len(sorted_list) == len(self.item_list):
+            return""")
+M('add_dead_merge_wrong', 'C11', SU,
+  """        if start <= d_start <= stop:
+            dint[0] = start""",
+  """        if start <= d_start <= stop + 1:
+            dint[0] = start""")
+M('compaction_threshold', 'C11', SU,
+  """        elif len(ded) > 384:
+            self._compact()""",
+  """        elif len(ded) > 384:
+            del ded[:192]""")
+M('isdisjoint_first_only', 'C11', SU,
+  """        for k in other:
+            if k in iim:
+                return False
+        return True
+
+    def issubset""",
+  """        for k in other:
+            return k not in iim
+        return True
+
+    def issubset""")
+M('symdiff_order', 'C11', SU,
+  """        ret = self.union(*others)
+        return ret.difference(self.intersection(*others))""",
+  """        ret = self.from_iterable(chain(*others)).union(self)
+        return ret.difference(self.intersection(*others))""")
